@@ -1627,6 +1627,21 @@ def dumps_internal(obj: object) -> bytes:
 
 class _Serializer:
     _dispatch: dict[type, Callable[[_Serializer, object], None]] = {}
+    _exact_types = (
+        type(None),
+        bool,
+        bytes,
+        str,
+        int,
+        float,
+        complex,
+        list,
+        dict,
+        tuple,
+        set,
+        frozenset,
+        Channel,
+    )
 
     def __init__(self, write: Callable[[bytes], None] | None = None) -> None:
         if write is None:
@@ -1657,7 +1672,9 @@ class _Serializer:
             meth: Callable[[_Serializer, object], None] | None = getattr(
                 self.__class__, methodname, None
             )
-            if meth is None:
+            # the lookup is by type *name*: make sure it really is the
+            # builtin type (or Channel) and not some class of the same name
+            if meth is None or tp not in self._exact_types:
                 raise DumpError(f"can't serialize {tp}") from None
             dispatch = self._dispatch[tp] = meth
         dispatch(self, obj)
